@@ -4,7 +4,7 @@ usage: seedcheck.py <src_dir_with_Cxx/a|b> [ids...]   (src layout: <src>/<Cxx>/<
 import json, os, shutil, subprocess, sys
 SRC = sys.argv[1]
 only = set(sys.argv[2:])
-WT = "/tmp/seedcheck_wt"
+WT = os.environ.get("SEEDCHECK_WT", "/tmp/seedcheck_wt")   # several instances may run side by side on disjoint ids
 ENV = dict(os.environ, GOFLAGS="-mod=mod", GOPROXY="off", GOSUMDB="off", GOTOOLCHAIN="local")
 
 
@@ -74,5 +74,5 @@ try:
                 json.dump(m, open(os.path.join(dst, "meta.json"), "w"), indent=1)
 finally:
     subprocess.run(f"git -C /repo worktree remove --force {WT}", shell=True)
-    json.dump(results, open("/tmp/seedcheck_results.json", "w"), indent=1)
+    json.dump(results, open(WT + "_results.json", "w"), indent=1)
 print("confirmed:", sum(1 for r in results if r["confirmed"]), "of", len(results))
